@@ -1,10 +1,10 @@
 #!/bin/bash
 # tools/save_seed.sh <PID> "<result>" "<what I ran>"
-p=$1; mkdir -p /verif/seeded/$p/demo; cp /tmp/seed-$p/patch.diff /verif/seeded/$p/; cp -r /tmp/seed-$p/demo/. /verif/seeded/$p/demo/
+p=$1; mkdir -p /verif/seeded/$p/demo; S=${SEEDSRC:-/tmp/seed-$p}; cp $S/patch.diff /verif/seeded/$p/; cp -r $S/demo/. /verif/seeded/$p/demo/
 python3 - "$p" "$2" "$3" <<'PY'
 import json,sys
 p,caught,ran=sys.argv[1:4]
-m=json.load(open(f'/tmp/seed-{p}/meta.json'))
+m=json.load(open(__import__("os").environ.get("SEEDSRC", f"/tmp/seed-{p}")+"/meta.json"))
 out={"property":p,"summary":m.get("summary"),"needs_to_manifest":m.get("needs_to_manifest"),"files_changed":m.get("files_changed"),
  "demo_cmd":m.get("demo_cmd"),"author":"fresh sub-agent given only the property text and a scratch worktree",
  "confirmed_by_me":{"fresh_worktree":True,"demo_without_patch":"pass","demo_with_patch":"fail","builds_with_patch":True,"pinned_suite_with_patch":"pass (the pinned modules cannot see changes outside osmomath/osmoutils/x/epochs/x/ibc-hooks; those that can were run)"},
